@@ -66,6 +66,8 @@ type modelBatch struct {
 // BadgerLog records what the model saw, for harness assertions.
 type badgerLog struct {
 	opens       []bool // SyncWrites of each Open
+	bypass      []bool // BypassLockGuard of each Open
+	locks       map[string]*modelDB // directory -> handle holding badger's directory lock
 	commits     int
 	commitKeys  []string
 	lastCommits []string
@@ -148,6 +150,7 @@ func addBadgerModel(P *Program) {
 	dirIdx := fieldIndex(optType, "Dir")
 	vdirIdx := fieldIndex(optType, "ValueDir")
 	syncIdx := fieldIndex(optType, "SyncWrites")
+	bypassIdx := fieldIndex(optType, "BypassLockGuard")
 
 	h[badgerPkg+".DefaultOptions"] = func(i *interpreter, fr *frame, fn *ssa.Function, args []value) value {
 		o := zero(optType).(structure)
@@ -169,8 +172,17 @@ func addBadgerModel(P *Program) {
 		dir := goString(o[dirIdx], "badger dir")
 		l := i.blog()
 		l.opens = append(l.opens, o[syncIdx].(bool))
+		bypass, _ := o[bypassIdx].(bool)
+		l.bypass = append(l.bypass, bypass)
 		if i.fault("badger.Open") {
 			return tuple{(*value)(nil), i.mkError("injected: badger.Open failed")}
+		}
+		// badger's directory lock: one open handle per directory unless the guard is bypassed
+		if l.locks == nil {
+			l.locks = map[string]*modelDB{}
+		}
+		if holder := l.locks[dir]; holder != nil && !holder.closed && !bypass {
+			return tuple{(*value)(nil), i.mkError("Cannot acquire directory lock on \"" + dir + "\".  Another process is using this Badger database.: resource temporarily unavailable")}
 		}
 		key := "badger:" + dir
 		var st *kvStore
@@ -181,6 +193,9 @@ func addBadgerModel(P *Program) {
 			i.models[key] = st
 		}
 		db := &modelDB{dir: dir, committed: st, syncWrite: o[syncIdx].(bool)}
+		if !bypass {
+			l.locks[dir] = db
+		}
 		return tuple{newHandle(db), iface{}}
 	}
 	h["(*"+badgerPkg+".DB).Close"] = func(i *interpreter, fr *frame, fn *ssa.Function, args []value) value {
@@ -324,7 +339,14 @@ func addBadgerModel(P *Program) {
 		if i.fault("badger.Item.Value") {
 			return i.mkError("injected: badger Item.Value failed")
 		}
-		return call(i, fr, 0, args[1], []value{copyVals(it.val)})
+		// the slice handed to the callback is only valid inside it (badger reuses the buffer):
+		// afterwards it holds other bytes, so code that keeps it without copying reads garbage
+		buf := copyVals(it.val)
+		r := call(i, fr, 0, args[1], []value{buf})
+		for k := range buf {
+			buf[k] = byte(0xdb)
+		}
+		return r
 	}
 	h["(*"+badgerPkg+".Item).ValueCopy"] = func(i *interpreter, fr *frame, fn *ssa.Function, args []value) value {
 		it := handleOf(args[0]).(*modelItem)
